@@ -323,7 +323,7 @@ where
     have := (Items.covers_iff t.items need).2 hn
     exact ⟨⟨c1, by simp [start, c2, this]⟩, Items.le_refl _, fun h => absurd h hm.1, fun h => absurd h hm.2⟩
 
-theorem doTx_spec (t : ChipTrack) (hc : Clean t) (ha : Aw t) (hi : n.tx.le t.items) :
+theorem doTx_spec (t : ChipTrack) (hc : Clean t) (_ha : Aw t) (hi : n.tx.le t.items) :
     wp .sx127x n doTx (fun _ t' => Ext t t') (fun a t' => Ext t t' ∧ a.infra) t := by
   unfold doTx writeRegister
   show wp .sx127x n (Prog.bind _ _) _ _ t
@@ -337,8 +337,8 @@ theorem doTx_spec (t : ChipTrack) (hc : Clean t) (ha : Aw t) (hi : n.tx.le t.ite
 theorem doRx_spec (cfg : Config) (m : RxMode) (t : ChipTrack) (hc : Clean t) (hl : Link (.receive m) t) (hi : n.rx.le t.items) :
     wp .sx127x n (doRx cfg m) (fun _ t' => Clean t' ∧ t.items.le t'.items ∧ Link (.receive m) t')
       (fun a t' => (Clean t' ∧ t.items.le t'.items ∧ Link (.receive m) t') ∧ a.infra) t := by
-  have ofExt : ∀ {ha : Aw t} t', Ext t t' → Clean t' ∧ t.items.le t'.items ∧ Link (.receive m) t' :=
-    fun {ha} t' e => ⟨e.clean, e.items, Link.of_aw (e.aw ha)⟩
+  have ofExt : Aw t → ∀ t', Ext t t' → Clean t' ∧ t.items.le t'.items ∧ Link (.receive m) t' :=
+    fun ha t' e => ⟨e.clean, e.items, Link.of_aw (e.aw ha)⟩
   have tail : ∀ (k : Nat) (v : UInt8), Aw t → byte (LoRaMode.value .RxSingle) = v ∨ byte (LoRaMode.value .RxContinuous) = v →
       wp .sx127x n (do
           Prog.req .rfRx
@@ -350,18 +350,18 @@ theorem doRx_spec (cfg : Config) (m : RxMode) (t : ChipTrack) (hc : Clean t) (hl
         (fun _ t' => Clean t' ∧ t.items.le t'.items ∧ Link (.receive m) t')
         (fun a t' => (Clean t' ∧ t.items.le t'.items ∧ Link (.receive m) t') ∧ a.infra) t := by
     intro k v ha hv
-    refine wp_cfg_bind (cfg_plain (Or.inr (Or.inl rfl))) hc ha (fun _ t1 e1 _ => ?_) (fun a t' e h => ⟨ofExt (ha := ha) _ e, h⟩)
+    refine wp_cfg_bind (cfg_plain (Or.inr (Or.inl rfl))) hc ha (fun _ t1 e1 _ => ?_) (fun a t' e h => ⟨ofExt ha _ e, h⟩)
     refine wp_cfg_bind (cfg_setLoraSymbolNumTimeout _) e1.clean (e1.aw ha) (fun _ t2 e2 _ => ?_)
-      (fun a t' e h => ⟨ofExt (ha := ha) _ (e1.trans e), h⟩)
+      (fun a t' e h => ⟨ofExt ha _ (e1.trans e), h⟩)
     have e02 := e1.trans e2
     refine wp_cfg_bind (cfg_write _ _ (by decide)) e2.clean (e02.aw ha) (fun _ t3 e3 _ => ?_)
-      (fun a t' e h => ⟨ofExt (ha := ha) _ (e02.trans e), h⟩)
+      (fun a t' e h => ⟨ofExt ha _ (e02.trans e), h⟩)
     have e03 := e02.trans e3
     refine wp_cfg_bind (cfg_write _ _ (by decide)) e3.clean (e03.aw ha) (fun _ t4 e4 _ => ?_)
-      (fun a t' e h => ⟨ofExt (ha := ha) _ (e03.trans e), h⟩)
+      (fun a t' e h => ⟨ofExt ha _ (e03.trans e), h⟩)
     have e04 := e03.trans e4
     refine wp_cfg_bind cfg_clearIrqStatus e4.clean (e04.aw ha) (fun _ t5 e5 _ => ?_)
-      (fun a t' e h => ⟨ofExt (ha := ha) _ (e04.trans e), h⟩)
+      (fun a t' e h => ⟨ofExt ha _ (e04.trans e), h⟩)
     have e05 := e04.trans e5
     unfold writeRegister
     rw [wp_intfWrite, wrOpMode]
@@ -373,7 +373,7 @@ theorem doRx_spec (cfg : Config) (m : RxMode) (t : ChipTrack) (hc : Clean t) (hl
       · rw [← hv, opRxC, step127_opmode t5 _ (by decide)]
         simp only [show (133 : UInt8).toNat % 8 = 5 by decide]
         exact e05.trans (start127_ext e5.clean (e05.le hi) (m := .rx) (by simp))
-    exact ⟨⟨ofExt (ha := ha) _ e05, rfl⟩, ⟨ofExt (ha := ha) _ e, rfl⟩, ofExt (ha := ha) _ e⟩
+    exact ⟨⟨ofExt ha _ e05, rfl⟩, ⟨ofExt ha _ e, rfl⟩, ofExt ha _ e⟩
   unfold doRx
   cases m with
   | dutyCycle a b => exact ⟨⟨hc, Items.le_refl _, hl⟩, rfl⟩
